@@ -1,13 +1,14 @@
 (* Property C11 - a refused edit changes nothing.
    An exception is modelled as [Err e st'] where st' is the state as mutated up to the raise.
    PROVED here (for every state satisfying W_dict and W_forest): a refused UserDeleteEdge,
-   UserAddEdge (forced or not) or UserUpdateNodeAttrs returns exactly the state it was given
+   UserAddEdge (forced or not), UserSwapPredecessors or UserUpdateNodeAttrs returns exactly the
+   state it was given
    (Leibniz equality on the whole record: graph, attributes, array, lookups, history, log).
    NOT YET PROVED as theorems (decided by the differential correspondence and the deep
-   before/after oracle only): UserAddNode, UserDeleteNode, UserSwapPredecessors, the paint
-   action.  See DESIGN.md section 9 (C11). *)
+   before/after oracle only): UserAddNode, UserDeleteNode, the paint action.  See DESIGN.md section 9 (C11). *)
 From Coq Require Import ZArith List Bool.
 From FT Require Import Base.Dict Model.Edit Model.EditExec Proofs.EditInv Proofs.EditUserEdge Proofs.EditUserEdgeCor Props.C03.
+From FT Require Proofs.EditSwap.
 Import ListNotations.
 Open Scope Z_scope.
 
@@ -22,6 +23,13 @@ Proof. exact add_edge_refused_unchanged. Qed.
 Theorem C11_update_attrs : forall st n new e st',
   user_update_attrs st n new = Err e st' -> st' = st /\ (e = EValue \/ e = EKey).
 Proof. exact update_attrs_refused_unchanged. Qed.
+
+
+(* a refused swap returns the state it was given; in particular none of its four nested edits
+   can be refused after an earlier one was applied *)
+Theorem C11_swap : forall st n1 n2 e st', W_dict st -> W_forest st ->
+  user_swap st n1 n2 = Err e st' -> st' = st.
+Proof. exact EditSwap.swap_refused_unchanged. Qed.
 
 (* at the level of the interpreter: the three ops, whatever their arguments *)
 Theorem C11_step_edge_ops : forall st o st' code aux, W_dict st -> W_forest st ->
@@ -44,4 +52,5 @@ Proof. vm_compute. repeat split. Qed.
 Print Assumptions C11_delete_edge.
 Print Assumptions C11_add_edge.
 Print Assumptions C11_update_attrs.
+Print Assumptions C11_swap.
 Print Assumptions C11_step_edge_ops.
